@@ -73,11 +73,11 @@ def panic_set(tier):
     out = []
     for ds in fp.profiles(3, 2 if tier == "quick" else 3):
         for mac in ASYNC6:
-            lim = (4 if tier == "quick" else 5) if "spawn" not in mac else (3 if tier == "quick" else 4)
+            lim = 5 if "spawn" not in mac else 4
             if sum(ds) > lim:
                 continue
             p = fp.build(mac, ds, gated="one")
-            out.append(aprog("%s/%s" % (mac, fp.pname(ds)), p, ds, "one", panics=fp.fail_slots(ds)))
+            out.append(aprog("%s/%s" % (mac, fp.pname(ds)), p, ds, "one", panics=fp.fail_slots(ds), sub=fp.fail_slots(ds) if (mac.startswith("try") and sum(ds) <= 3) else ()))
     return out
 
 
